@@ -160,6 +160,17 @@ CHECKS['C18'] = dict(
     note=TB + 'the E2 interpreter plus eqg.py/eqspec.py; axiom: two k-byte loads are equal iff their k bytes are pairwise equal; operands analysed as distinct regions',
     design_ref='5/C18')
 
+CHECKS['C19'] = dict(
+    category='proof', technique='abstract interpretation (E2) of the monomorphic MIR of the pair-selection and packed-pair constructor/accessor roots: symbolic needle, `rank` modelled as an arbitrary u8 per call, Houdini loop invariants (incl. a disequality template), exactness clauses as entailment obligations per return path; debug configurations, 2 (quick) / 10 (thorough)',
+    text="Decides the property: Pair::new/with_ranker return None only when needle.len() < 2 and otherwise two offsets that are "
+         "distinct, inside the needle and <= 254, for EVERY ranker (the value of rank() is arbitrary at each call); "
+         "Pair::with_indices returns None only on a path where the offsets are equal or out of range and otherwise exactly the "
+         "offsets given; every backend's packedpair::Finder::{new,with_pair} stores exactly the pair given (and its "
+         "min_haystack_len relates to it), and pair()/index1()/index2()/min_haystack_len() return the stored values. The "
+         "assert_ne! and the u8::try_from(i).unwrap() of with_ranker are proved unreachable.",
+    note=TB + 'the E2 interpreter and mm.py tables; rank() assumed free of side effects on the needle',
+    design_ref='5/C19')
+
 NOT_YET = "check not built yet (build in progress, see DESIGN.md section 8 build order)"
 NA = {}
 
